@@ -8,8 +8,39 @@ use vcf::record::genotypes::sample::value::genotype::Genotype as VcfGenotype;
 
 use crate::input::{genotype, ReadStatus, Sample};
 
+/// A reader that keeps track of failures and of the bytes delivered for the current record.
+///
+/// The underlying BCF reader takes an unexpected end of file while reading the length of a record for
+/// the end of the records, also when it is an error raised by the wrapped reader (e.g. a compressed
+/// stream cut short), or when the length itself is cut short.
+pub struct Guard<R> {
+    inner: R,
+    failure: Option<(io::ErrorKind, String)>,
+    delivered: usize,
+}
+
+impl<R> io::Read for Guard<R>
+where
+    R: io::Read,
+{
+    fn read(&mut self, buf: &mut [u8]) -> io::Result<usize> {
+        match self.inner.read(buf) {
+            Ok(n) => {
+                self.delivered += n;
+                Ok(n)
+            }
+            Err(e) => {
+                if e.kind() != io::ErrorKind::Interrupted {
+                    self.failure = Some((e.kind(), e.to_string()));
+                }
+                Err(e)
+            }
+        }
+    }
+}
+
 pub struct Reader<R> {
-    pub inner: bcf::Reader<R>,
+    pub inner: bcf::Reader<Guard<R>>,
     pub header: vcf::Header,
     pub string_maps: bcf::header::StringMaps,
     pub samples: Vec<Sample>,
@@ -21,7 +52,11 @@ where
     R: io::Read,
 {
     pub fn new(inner: R) -> io::Result<Self> {
-        let mut inner = bcf::Reader::from(inner);
+        let mut inner = bcf::Reader::from(Guard {
+            inner,
+            failure: None,
+            delivered: 0,
+        });
 
         let header = inner.read_header()?;
         let string_maps = bcf::header::StringMaps::try_from(&header)
@@ -44,8 +79,20 @@ where
     }
 
     fn read_genotypes(&mut self) -> ReadStatus<Vec<Option<VcfGenotype>>> {
+        self.inner.get_mut().delivered = 0;
+
         match self.inner.read_lazy_record(&mut self.buf) {
-            Ok(0) => ReadStatus::Done,
+            Ok(0) => match self.inner.get_ref() {
+                Guard {
+                    failure: Some((kind, msg)),
+                    ..
+                } => ReadStatus::Error(io::Error::new(*kind, msg.clone())),
+                Guard { delivered: 1.., .. } => ReadStatus::Error(io::Error::new(
+                    io::ErrorKind::UnexpectedEof,
+                    "unexpected end of file in record",
+                )),
+                _ => ReadStatus::Done,
+            },
             Ok(_) => {
                 let result = self
                     .buf
